@@ -198,7 +198,7 @@ func (u *UnitsDefinition) FormatLongInt(data int64) string {
 	for _, multiplier := range u.getSortedMultipliersCache() {
 		base := int64(math.Floor(float64(remainder) / float64(multiplier)))
 		remainder -= base * multiplier
-		output += u.Multipliers()[multiplier].FormatLongInt(remainder, false)
+		output += u.Multipliers()[multiplier].FormatLongInt(base, false)
 	}
 	output += u.BaseUnit().FormatLongInt(remainder, false)
 	return output
